@@ -183,6 +183,31 @@ func (fg *FnGen) atCallGhosts(name string, args []*Val, res *Val, pos token.Pos)
 	if fg.c == nil {
 		return
 	}
+	// lemmas: proved right after the call (with `result` bound), then available as facts
+	for _, ac := range fg.c.AtCalls {
+		if ac.Kind != "lemma" || !matchCallee(ac.Callee, name) {
+			continue
+		}
+		env := fg.env(fg.cur, fg.entry, nil)
+		fg.bindCallArgs(env, args)
+		env.atBlock = fg.curBlock
+		if res != nil {
+			env.vars["result"] = res
+			env.vars["result0"] = res
+			if tp, ok := res.T.(*types.Tuple); ok {
+				for i := 0; i < tp.Len(); i++ {
+					lo, hi := tupleRange(tp, i)
+					env.vars[fmt.Sprintf("result%d", i)] = &Val{T: tp.At(i).Type(), L: res.L[lo:hi]}
+				}
+			}
+		}
+		t := fg.evalBool(ac.Clause.Expr, env)
+		label := ac.Clause.Label
+		if label == "" {
+			label = "lemma"
+		}
+		fg.oblige("lemma."+sanitize(name), label, t, pos, "lemma after every call of "+name+": "+ac.Clause.Src)
+	}
 	for _, ac := range fg.c.AtCalls {
 		if ac.Kind != "ghost" || !matchCallee(ac.Callee, name) {
 			continue
@@ -524,6 +549,13 @@ func (fg *FnGen) uncontractedCall(cc *ssa.CallCommon, fn *ssa.Function, name str
 			fg.havocReachable(a, pos)
 		}
 		fg.havocAllocMonotone()
+	case !cc.IsInvoke() && fg.g.externalFuncType(cc.Value.Type()):
+		// a value of a named function type declared outside the repository (context.CancelFunc, ...): external code
+		fg.note("call of an external function-typed value without contract: " + name + " (assumed to write only through its pointer/slice arguments and to perform no modelled event)")
+		for _, a := range args {
+			fg.havocReachable(a, pos)
+		}
+		fg.havocAllocMonotone()
 	default:
 		if !fg.modAll {
 			fg.oblige("frame", "call."+name, TFalse, pos, "dynamic call "+name+" without contract may modify anything")
@@ -795,6 +827,12 @@ func (g *Gen) writeSetOf(fn *ssa.Function) *writeSet {
 						continue
 					}
 					if cc.IsInvoke() && g.externalInterface(cc.Value.Type()) {
+						for _, a := range cc.Args {
+							g.addArgWrites(ws, a)
+						}
+						continue
+					}
+					if !cc.IsInvoke() && g.externalFuncType(cc.Value.Type()) {
 						for _, a := range cc.Args {
 							g.addArgWrites(ws, a)
 						}
@@ -1359,4 +1397,16 @@ func modMentionsNonHeap(m CExpr, con *Contract, fg *FnGen) bool {
 		}
 	}
 	return false
+}
+
+// externalFuncType: a named function type declared outside the repository (e.g. context.CancelFunc).
+func (g *Gen) externalFuncType(T types.Type) bool {
+	n, ok := types.Unalias(T).(*types.Named)
+	if !ok || n.Obj().Pkg() == nil {
+		return false
+	}
+	if _, isSig := n.Underlying().(*types.Signature); !isSig {
+		return false
+	}
+	return !g.inRepo(n.Obj().Pkg().Path())
 }
